@@ -139,3 +139,199 @@ def c04(ctx):
         'end to end: random utility-method requests plus two listing-order permutations each. distinct = (n, tie pattern) signatures, '
         'non-trivial = at least two alternatives',
         './check C04')
+
+
+# -------------------------------------------------------------------------------------------------
+# method-level properties decided from whole requests (columns of Check/Judge.judge_all)
+from . import e2e
+import glob
+
+COL = {name: i for i, name in enumerate(['agree', 'C01', 'C03', 'C04', 'C05', 'C11', 'C12', 'C13', 'C01struct', 'C03values'])}
+
+
+def load_corpus(pid):
+    reqs = []
+    for f in sorted(glob.glob(os.path.join(core.VERIF, 'corpus', pid, '*.json'))):
+        try:
+            d = json.load(open(f))
+            reqs.append(d['request'] if 'request' in d else d)
+        except Exception as e:
+            log('corpus file unreadable', f, e)
+    return reqs
+
+
+def req_signature(req, res):
+    mp = req.get('methodParameters') or {}
+    alts = req.get('knownAlternatives') or []
+    n_cons = len(req.get('choseToMake') or [])
+    cur = mp.get('currentChoice')
+    curpos = 'none' if not cur else ('considered' if cur in (req.get('choseToMake') or []) else 'known-only')
+    out = 'rejected'
+    if res.get('ok'):
+        r = res['resp']['result']
+        evs = [json.dumps(e['evaluation'], sort_keys=True) for e in r]
+        out = 'n%d/distinct-evals%d' % (len(r), len(set(evs)))
+    return (req.get('preferenceFunction'), len(alts), n_cons, len(req.get('criteria') or []), curpos,
+            tuple(b.get('name') for b in (req.get('biases') or []) if not b.get('disabled')),
+            mp.get('function'), mp.get('drawResolution'), bool(mp.get('randomAlternativesOrdering')), out)
+
+
+def tied_aspect_weights(req, res):
+    fin = res.get('evalInput') or {}
+    w = ((fin.get('MethodParameters') or {}).get('Weights')) or (req.get('methodParameters') or {}).get('weights') or {}
+    vals = list(w.values())
+    return len(set(vals)) != len(vals)
+
+
+def shrink(ctx, req, still_fails, budget=40):
+    """greedy reduction of a failing request: drop alternatives / criteria / biases while it still fails"""
+    cur = req
+    tried = 0
+    changed = True
+    while changed and tried < budget:
+        changed = False
+        cands = []
+        for i in range(len(cur.get('knownAlternatives') or [])):
+            a = cur['knownAlternatives'][i]['id']
+            c = dict(cur, knownAlternatives=cur['knownAlternatives'][:i] + cur['knownAlternatives'][i + 1:],
+                     choseToMake=[x for x in cur['choseToMake'] if x != a])
+            if (c.get('methodParameters') or {}).get('currentChoice') == a:
+                continue
+            cands.append(c)
+        for i in range(len(cur.get('biases') or [])):
+            cands.append(dict(cur, biases=cur['biases'][:i] + cur['biases'][i + 1:]))
+        for c in cands:
+            tried += 1
+            if tried > budget:
+                break
+            if still_fails(c):
+                cur = c
+                changed = True
+                break
+    return cur
+
+
+def method_check(ctx, col, gens, n_quick, n_thorough, rule, agree_col='agree', agree_scope=None,
+                 finding_facts=None, code2_finding=None, excuse=None):
+    """gens: list of (weight, generator(rnd) -> request). col: checker column name.
+    agree_col: which correspondence column ties the model to the code for this property."""
+    pid = ctx.pid
+    ctx.check_proofs()
+    rnd = ctx.rnd
+    if ctx.replay and 'request' in ctx.replay:
+        reqs = [ctx.replay['request']]
+    else:
+        reqs = load_corpus(pid)
+        n = n_cases(ctx, n_quick, n_thorough)
+        ws = [g[0] for g in gens]
+        for _ in range(n):
+            g = rnd.choices(gens, ws)[0][1]
+            reqs.append(g(rnd))
+    ress, verd, logs = e2e.run_all(ctx.pipe, reqs, pid)
+    broken = []
+    ci, ai = COL[col], COL[agree_col]
+    for req, res, v in zip(reqs, ress, verd):
+        sig = req_signature(req, res)
+        ctx.seen(sig, trivial=(not res.get('ok')) or len(res['resp']['result']) < 2)
+        ctx.count('method/' + str(req.get('preferenceFunction')))
+        ctx.count('outcome/' + ('accepted' if res.get('ok') else 'rejected:' + str(res.get('kind'))))
+        ctx.count('biases/%d' % len([b for b in (req.get('biases') or []) if not b.get('disabled')]))
+        ctx.sample({'request': req, 'response': res.get('resp') if res.get('ok') else res.get('err')}, limit=3)
+        if v == [99] or len(v) <= max(ci, ai):
+            ctx.violation('case file did not evaluate', {'broken': 'Run/cases_%s' % pid, 'log': logs[:1], 'request': req},
+                          found_input=False)
+            continue
+        facts = {'method': req.get('preferenceFunction')}
+        if finding_facts:
+            facts.update(finding_facts(req, res))
+        if v[ci] == 2 and code2_finding:
+            ctx.violation(code2_finding, {'request': req, 'response': res.get('resp')}, dict(facts, code=2))
+        elif v[ci] != 0:
+            def still(c, ci=ci):
+                r2, v2, _ = e2e.run_all(ctx.pipe, [c], pid + 's')
+                return len(v2[0]) > ci and v2[0][ci] == 1
+            small = shrink(ctx, req, still) if not ctx.replay else req
+            r3 = ctx.pipe.call({'op': 'trace', 'req': small})
+            ctx.violation('checker %s_ok rejects what the implementation returned' % col,
+                          {'request': small, 'original_request': req, 'response': r3.get('resp') or r3.get('err'),
+                           'final_state': r3.get('evalInput'), 'checker': 'Check/%s.v' % col[:3]}, facts)
+        if v[ai] != 0 and (agree_scope is None or agree_scope(req)):
+            if excuse and excuse(req, res, v):
+                ctx.count('correspondence/excused')
+                continue
+            broken.append((req, res, v))
+    if broken and not any(vv[2] for vv in ctx.violations):
+        req, res, v = broken[0]
+        model = core.eval_term(pid + 'm', 'decide %s %s' % (e2e.env_for(ctx.pipe, req), emit.crequest(req)))
+        ctx.violation('correspondence model/code broken on %d of %d cases (%s); every observed output still satisfies the checker'
+                      % (len(broken), len(reqs), e2e.AGREE_TEXT.get(v[0], v[0])),
+                      {'broken': 'correspondence %s (column %s)' % (pid, agree_col), 'request': req,
+                       'response': res.get('resp') or res.get('err'), 'model': model[:6000]}, found_input=False)
+    elif broken:
+        ctx.notes.append('correspondence also broken on %d cases' % len(broken))
+    return ctx.finish(rule, './check %s' % pid)
+
+
+def not_tied_aspect(req, res, v):
+    return req.get('preferenceFunction') == 'aspectEliminationHeuristic' and tied_aspect_weights(req, res) and v[0] == 3
+
+
+def gen_method(m):
+    return lambda rnd: gen.any_request(rnd, m)
+
+
+ALL_GENS = [(1, gen_method(m)) for m in gen.METHODS]
+
+
+@check('C01')
+def c01(ctx):
+    return method_check(
+        ctx, 'C01', ALL_GENS + [(2, gen_method('majorityHeuristic'))], 350, 6000,
+        'random valid requests over the seven methods (majority over-weighted: tie groups under every draw policy), currentChoice '
+        'absent / considered / known-only, shuffled orders; distinct = (method, sizes, currentChoice position, draw policy, outcome shape); '
+        'non-trivial = accepted with at least two entries',
+        agree_col='C01struct', excuse=not_tied_aspect)
+
+
+@check('C03')
+def c03(ctx):
+    return method_check(
+        ctx, 'C03', [(1, gen_method(m)) for m in gen.UTILITY], 300, 6000,
+        'random weightedSum / owa / choquetIntegral requests: weights of mixed magnitude, cost criteria, equal weights, non-additive '
+        'capacities with scrambled keys, values with near-ties at 0.9e-5 / 1.1e-5; distinct = request shape x outcome shape',
+        agree_col='C03values',
+        code2_finding='weightedSum reports the plain sum of the (signed) values, the weights are not applied')
+
+
+@check('C05')
+def c05(ctx):
+    return method_check(
+        ctx, 'C05', [(1, gen_method('electreIII'))], 300, 6000,
+        'random electreIII requests: gain and cost criteria, every presence pattern of q<p<v, ties on criteria and identical '
+        'alternatives, default and custom distillation functions; distinct = request shape x outcome shape',
+        agree_col='agree')
+
+
+@check('C11')
+def c11(ctx):
+    return method_check(
+        ctx, 'C11', [(1, gen_method('majorityHeuristic'))], 300, 6000,
+        'random majority requests: all four draw policies, seeded order, three positions of currentChoice, value ties within 1e-6, '
+        'equal and mixed weights', agree_col='agree')
+
+
+@check('C12')
+def c12(ctx):
+    return method_check(
+        ctx, 'C12', [(1, gen_method('aspectEliminationHeuristic'))], 300, 6000,
+        'random aspect-elimination requests: explicit thresholds and both generated series (dyadic parameters landing on bounds), '
+        'gain and cost criteria, shuffled order, single alternatives; correspondence claimed for pairwise distinct weights',
+        agree_col='agree', excuse=not_tied_aspect)
+
+
+@check('C13')
+def c13(ctx):
+    return method_check(
+        ctx, 'C13', [(1, gen_method('satisfactionHeuristic'))], 300, 6000,
+        'random satisfaction requests: currentChoice absent / considered / known-only, explicit thresholds and both generated series, '
+        'levels nobody meets, cost criteria, shuffled order', agree_col='agree')
